@@ -990,7 +990,7 @@ class LogixDriver(CIPDriver):
             return_size = (
                 _tag_return_size(tag_data) + len(request.message) + 2
             )  # response overhead  # TODO make const
-            if return_size > self.connection_size:
+            if return_size + MULTISERVICE_READ_OVERHEAD > self.connection_size:
                 request = ReadTagFragmentedRequestPacket.from_request(self._sequence, request)
                 fragmented_requests.append(request)
             else:
